@@ -280,6 +280,16 @@ func TestC05Proc(t *testing.T) {
 			}
 		}
 	}
+	// two clients built from one ClientConfig (custom runner, one UnixSocketConfig value), both starts fail while the other
+	// client is still around; each is killed afterwards, in either order: both socket directories are gone
+	for _, name := range []string{"bad app version", "short line", "silence until timeout"} {
+		for _, order := range [][]string{{"kill:0", "kill:1"}, {"kill:1", "kill:0"}} {
+			ops := append([]string{"new", "start", "new", "start", "sleep:1500", "proc?"}, order...)
+			cells = append(cells, Cell{Name: fmt.Sprintf("launch=runner cause=%s, two clients from one ClientConfig, %s", name, strings.Join(order, " then ")), Plugin: PluginConf{LegacyProto: "netrpc"},
+				Host: HostConf{Allowed: []string{"netrpc", "grpc"}, TLS: "none", Launch: "runner", Legacy: 1, Script: scripts[name], StartTimeoutMs: 1500, SharedConfig: true, SharedSocketCfg: true},
+				Ops:  append(ops, "proc?")})
+		}
+	}
 	results := runCells(base, cells)
 	out := &enumResult{Exhaustive: true, Outcomes: map[string]int{}}
 	for i, r := range results {
@@ -307,7 +317,7 @@ func TestC05Proc(t *testing.T) {
 			if o.Op == "proc?" {
 				procs = append(procs, o.Val)
 			}
-			if o.Op == "kill" && o.Ms > 10000 {
+			if strings.HasPrefix(o.Op, "kill") && o.Ms > 10000 {
 				bad("T", "Kill after a failed start took %d ms", o.Ms)
 			}
 		}
